@@ -238,3 +238,28 @@ def discharge_alg(items, budget=120):
         det["expr_size"] = sympy.count_ops(e) if hasattr(e, "free_symbols") else 0
         vs.append(Verdict(n, st, "sympy-" + sympy.__version__, t, k, w, det))
     return vs
+
+
+def guarded(run, fn, *a, **k):
+    """run a CONCRETE (floating point / real file) sub-check.  -> (evaluations, failure dict or None).
+    An exception escaping from repository code on a concrete input is a violation (the failing call is in the traceback), except an explicit `raise ValueError/TypeError`
+    (possibly input validation meeting an input of this harness: undecided); an exception in checker code is a harness limit: undecided.  Never a crash."""
+    import traceback
+    try:
+        return fn(*a, **k)
+    except Exception as ex:
+        tb = traceback.extract_tb(ex.__traceback__)
+        isck = lambda f: "/verif/props/" in f.filename or "/verif/vc/" in f.filename or "/verif/contracts/" in f.filename
+        k_last = max([i for i, f in enumerate(tb) if isck(f)] + [-1])
+        below = [f for f in tb[k_last + 1:] if "/pyyeti/" in f.filename]          # repository frames entered from the last checker frame
+        inrepo = bool(below)
+        last = below[-1] if below else tb[-1]
+        where = "%s:%s" % (last.filename.split("/pyyeti/")[-1] if inrepo else os.path.basename(last.filename), last.lineno)
+        call = [f for f in tb if isck(f)]
+        at = "%s:%s `%s`" % (os.path.basename(call[-1].filename), call[-1].lineno, (call[-1].line or "").strip()[:120]) if call else "?"
+        validation = isinstance(ex, (ValueError, TypeError)) and tb[-1] is last and (last.line or "").strip().startswith("raise")
+        if inrepo and not validation:
+            msg = "the real code raised %r at %s on a concrete input of the bounded check (%s, called from %s)" % (ex, where, getattr(fn, "__name__", "?"), at)
+            return 0, dict(what=msg, function=msg, pair=msg, traceback=traceback.format_exc()[-1500:])
+        run.undecided.append("bounded sub-check %s could not complete: %r at %s (called from %s)" % (getattr(fn, "__name__", "?"), ex, where, at))
+        return 0, None
